@@ -895,33 +895,27 @@ impl<'a, R: 'a + Read> Read for CompressionLayerFailSafeReader<'a, R> {
                 // is full. Returning `Ok(0)` in these cases would be understood
                 // by the caller as the end of the data: loop until some bytes
                 // are produced, the input is really exhausted, or an error occurs
+                //
+                // New input is requested from the inner layer only once the
+                // decompressor has consumed the previous one and has delivered
+                // the output it holds: if what comes next is invalid (or fails
+                // to be read), every byte decodable from the data obtained so
+                // far has already been returned
+                let mut first_pass = true;
                 loop {
-                    if *read_offset == *cache_filled_offset
-                        && *cache_filled_offset == FAIL_SAFE_BUFFER_SIZE
-                    {
-                        // Cache is full and there is no more data to read from
-                        // -> cache must be reset
+                    let mut no_more_input = false;
+                    if *read_offset == *cache_filled_offset && !first_pass {
+                        // The cache has been fully read -> renew it from the
+                        // inner source
                         cache.fill(0);
                         *cache_filled_offset = 0;
                         *read_offset = 0;
-                    }
-
-                    // Try to fill the cache from the inner source
-                    let mut no_more_input = false;
-                    if *cache_filled_offset < FAIL_SAFE_BUFFER_SIZE {
-                        match inner.read(&mut cache[*cache_filled_offset..]) {
-                            Ok(0) => no_more_input = true,
-                            Ok(read) => *cache_filled_offset += read,
-                            Err(err) => {
-                                if *read_offset == *cache_filled_offset {
-                                    // No more data in the cache
-                                    return Err(err);
-                                }
-                                // There is still data in the cache to read
-                                // Will fail and return the error on a next pass
-                            }
+                        match inner.read(cache)? {
+                            0 => no_more_input = true,
+                            read => *cache_filled_offset = read,
                         }
                     }
+                    first_pass = false;
 
                     // Number of byte available in the source
                     let mut available_in = *cache_filled_offset - *read_offset;
@@ -1010,6 +1004,19 @@ impl<'a, R: 'a + Read> Read for CompressionLayerFailSafeReader<'a, R> {
                             }
                         }
                         brotli::BrotliResult::ResultFailure => {
+                            if output_offset > 0 {
+                                // Bytes may have been produced before the
+                                // failure; the error is sticky and will be
+                                // returned by the next call
+                                *uncompressed_read +=
+                                    u32::try_from(output_offset).map_err(|_| {
+                                        io::Error::new(
+                                            io::ErrorKind::InvalidData,
+                                            "Integer conversion failed",
+                                        )
+                                    })?;
+                                return Ok(output_offset);
+                            }
                             return Err(io::Error::new(
                                 io::ErrorKind::InvalidData,
                                 "Invalid Data while decompressing",
